@@ -140,6 +140,18 @@ func init() {
 						env.Vars["pkt"] = term.Bytes(pkt)
 						c.bindDefs(env, "defs")
 						fail = c.runChecks(env)
+						// the bytes handed out belong to the caller: a later Serialize (another client of the same process,
+						// possibly while this packet is still being written to its socket) must not touch them
+						if fail == "" {
+							keep := append([]byte{}, pkt...)
+							other := &messages.Encrypted{Msg: randBytes(rng, n+16), MsgID: mid + 4}
+							recoverTo(func() {
+								other.Serialize(&envInformator{key: randBytes(rng, 256), salt: salt + 1, sid: sid + 1, seq: seq + 2}, !ack)
+							})
+							if !bytes.Equal(keep, pkt) {
+								fail = "the packet returned by Serialize changed when another message was serialised afterwards"
+							}
+						}
 					case "s2c":
 						key, _, _, _, _, _ := bindCommon(env, n, []int64{1, 3}[rng.Intn(2)])
 						pv, err := env.Eval(c.Term("pkt"))
